@@ -486,6 +486,7 @@ func corpusCases() []rescorr.Case {
 }
 `))
 	seq[len(seq)-1].Extra["label"] = "corpus-oddprefix"
+	seq = append(seq, oddPrefixCorpus(mk)...)
 	for _, k := range []string{"pp", "pcp", "prp", "pctp", "pop", "pgp"} {
 		c := mk("base.yang", `module base { namespace "urn:base"; prefix b;
   container top { leaf name { type string; } leaf gone { type string; } choice kind { leaf a { type string; } container c { leaf x { type string; } } } }
